@@ -119,6 +119,18 @@ def run(res):
     clock_texts = [" .dw %s\n" % nm for nm in clock] + [" ldi r16, low(%s)\n" % nm.lower() for nm in clock[:7]] + [".if %s\n nop\n.endif\n" % clock[0]]
     texts += clock_texts
     texts = list(dict.fromkeys(texts))
+    # long chains of definitions, used many times: builds that spend their time deep inside nested evaluations, spread over the
+    # list so that several threads are inside one at the same moment (a nesting count is the build's own, never a shared one)
+    heavy = []
+    for i in range(16):
+        depth = (40, 50, 60, 35)[i % 4]
+        defs = [".equ h%d_0 = %d" % (i, i)] + [".equ h%d_%d = h%d_%d + 1" % (i, j, i, j - 1) for j in range(1, depth + 1)]
+        if i % 2:
+            defs.reverse()
+        heavy.append("\n".join(defs) + "\n" + (" .dw h%d_%d\n" % (i, depth)) * 1500)
+    step = max(1, len(texts) // len(heavy))
+    for i, h in enumerate(heavy):
+        texts.insert(i * (step + 1), h)
     obs = P.correspond(res, vh, exe, texts, "programs (each also replayed in histories and threads)")
     # the same source at different moments: a result must not depend on the clock
     import time
@@ -152,7 +164,7 @@ def run(res):
     res.extra["distribution"].update(sources=len(texts), histories=2, threads=8)
     res.extra["exhaustive"] = False
     res.rule = ("generated valid and failing programs (with and without .device, sharing symbol / macro / define names across builds) "
-                "each built alone in a fresh process, after and before all others in one process, and by 8 concurrent threads walking "
+                "and 16 programs that use 35..60-deep chains of definitions 1500 times, each built alone in a fresh process, after and before all others in one process, and by 8 concurrent threads walking "
                 "the list in different rotations; oracle: all observations of a source are equal.  Static scan of /repo/src for "
                 "static / thread_local / lazy_static / Once* / Atomic* / unsafe items and for iteration over the hash-map bindings")
     res.samples = [dict(source=texts[0], fresh=fresh[texts[0]][:80])]
